@@ -244,6 +244,27 @@ class Normalizer(ast.NodeTransformer):
     def _block(self, stmts):
         kept = [st for st in stmts if not self._is_diagnostic(st)]
         stmts = kept if kept else [ast.copy_location(ast.Pass(), stmts[0])] if stmts else stmts
+        # r = (a, b) if c else (d, e) ; p, q = r    ->   p = a if c else d ; q = b if c else e
+        dist = []
+        i = 0
+        while i < len(stmts):
+            st = stmts[i]
+            nxt = stmts[i + 1] if i + 1 < len(stmts) else None
+            if (
+                isinstance(st, ast.Assign) and len(st.targets) == 1 and isinstance(st.targets[0], ast.Name) and isinstance(st.value, ast.IfExp)
+                and isinstance(st.value.body, ast.Tuple) and isinstance(st.value.orelse, ast.Tuple) and len(st.value.body.elts) == len(st.value.orelse.elts)
+                and isinstance(nxt, ast.Assign) and len(nxt.targets) == 1 and isinstance(nxt.targets[0], ast.Tuple) and isinstance(nxt.value, ast.Name)
+                and nxt.value.id == st.targets[0].id and len(nxt.targets[0].elts) == len(st.value.body.elts)
+            ):
+                import copy as _c
+
+                for t, a, b in zip(nxt.targets[0].elts, st.value.body.elts, st.value.orelse.elts):
+                    dist.append(ast.copy_location(ast.Assign(targets=[t], value=ast.copy_location(ast.IfExp(test=_c.deepcopy(st.value.test), body=a, orelse=b), st.value)), st))
+                i += 2
+                continue
+            dist.append(st)
+            i += 1
+        stmts = dist
         # a, b = x, y  ->  a = x ; b = y
         split = []
         for st in stmts:
